@@ -78,6 +78,11 @@ func registerExecModel(e *Engine) {
 		cell := c.E.namedCell(st, "executed:"+p, func() Value { return smt.False })
 		return one(st, st.heap[cell])
 	})
+	e.reg(z+"ExecStarts", func(c *CallCtx, st *State, args []Value) []Outcome {
+		p := c.E.pathArg(args[0], "ExecStarts")
+		cell := c.E.namedCell(st, "starts:"+p, func() Value { return smt.IntC(0) })
+		return one(st, st.heap[cell])
+	})
 	e.reg(z+"RealCommands", func(c *CallCtx, st *State, args []Value) []Outcome {
 		cell := c.E.namedCell(st, "cmd:real", func() Value { return smt.False })
 		st.heap[cell] = smt.True
@@ -221,14 +226,23 @@ func registerExecModel(e *Engine) {
 		kind := sc[0].(*smt.Term)
 		text, _ := strArg(sc[1])
 		stderrText, _ := strArg(sc[2])
-		conds := make([]*smt.Term, 5)
+		// scenarios 0..3 and 5, 6 by number; everything else is 4 (deadline exceeded)
+		conds := make([]*smt.Term, 7)
 		rest := smt.True
-		for i := 0; i < 4; i++ {
+		for _, i := range []int{0, 1, 2, 3, 5, 6} {
 			conds[i] = smt.Eq(kind, smt.IntC(int64(i)))
 			rest = smt.And(rest, smt.Not(conds[i]))
 		}
 		conds[4] = rest
 		sts := en.forkStates(st, conds)
+		// a process is actually started (and may run up to its deadline) in every scenario but
+		// "cannot be started"
+		for _, i := range []int{0, 1, 4, 5, 6} {
+			if s := sts[i]; s != nil {
+				sc := en.namedCell(s, "starts:"+exe, func() Value { return smt.IntC(0) })
+				s.heap[sc] = smt.Add(s.heap[sc].(*smt.Term), smt.IntC(1))
+			}
+		}
 		bytesOf := func(s *State, txt string) Value {
 			el := make([]Value, len(txt))
 			for i := 0; i < len(txt); i++ {
@@ -253,11 +267,16 @@ func registerExecModel(e *Engine) {
 			}
 			outs = append(outs, Outcome{St: s, Ret: Tuple{bytesOf(s, text), ee}})
 		}
+		pathErr := func(s *State, why string) Value {
+			pe := errOf(s, "io/fs", "PathError").(Iface)
+			s.Store(pe.V.(Ptr).child(fieldIndex(en.typeOf("io/fs", "PathError"), "Err")), en.newError(s, why))
+			return pe
+		}
 		if s := sts[2]; s != nil { // cannot start (permission denied): *fs.PathError
-			outs = append(outs, Outcome{St: s, Ret: Tuple{Slice{}, errOf(s, "io/fs", "PathError")}})
+			outs = append(outs, Outcome{St: s, Ret: Tuple{Slice{}, pathErr(s, "permission denied")}})
 		}
 		if s := sts[3]; s != nil { // exec format error: *fs.PathError
-			outs = append(outs, Outcome{St: s, Ret: Tuple{Slice{}, errOf(s, "io/fs", "PathError")}})
+			outs = append(outs, Outcome{St: s, Ret: Tuple{Slice{}, pathErr(s, "exec format error")}})
 		}
 		if s := sts[4]; s != nil { // deadline exceeded: process killed, ctx.Err() set
 			ctxp := s.heap[en.namedCell(s, "exec.ctx", func() Value { return Ptr{} })].(Ptr)
@@ -267,7 +286,58 @@ func registerExecModel(e *Engine) {
 			}
 			outs = append(outs, Outcome{St: s, Ret: Tuple{Slice{}, errOf(s, "os/exec", "ExitError")}})
 		}
+		// Scenarios 5 and 6: a descendant of the command keeps the output pipe open for longer than
+		// any bound. Documented contract of os/exec (Cmd.WaitDelay): "If WaitDelay is zero (the
+		// default), I/O pipes will be read until EOF, which might not occur until orphaned
+		// subprocesses of the command have also closed their descriptors"; a non-zero WaitDelay
+		// bounds that wait (counted from the child's exit or the context's end), after which the
+		// pipes are closed and Wait returns ErrWaitDelay (clean exit) or the exit error.
+		setDeadline := func(s *State) {
+			ctxp := s.heap[en.namedCell(s, "exec.ctx", func() Value { return Ptr{} })].(Ptr)
+			if !ctxp.IsNil() {
+				de := s.Load(en.globalPtr(s, en.Pkgs["context"].Var("DeadlineExceeded")))
+				s.Store(ctxp.child(0), de)
+			}
+		}
+		for _, sn := range []int{5, 6} {
+			s := sts[sn]
+			if s == nil {
+				continue
+			}
+			wd := s.Load(args[0].(Ptr).child(fieldIndex(en.typeOf("os/exec", "Cmd"), "WaitDelay"))).(*smt.Term)
+			zero := smt.Eq(wd, smt.IntC(0))
+			br := en.forkStates(s, []*smt.Term{zero, smt.Not(zero)})
+			if u := br[0]; u != nil { // unbounded wait: the call returns only when the descendant is gone, long after the deadline
+				uc := en.namedCell(u, "exec.unbounded", func() Value { return smt.False })
+				u.heap[uc] = smt.True
+				setDeadline(u)
+				if sn == 5 {
+					outs = append(outs, Outcome{St: u, Ret: Tuple{bytesOf(u, text), nilErr}})
+				} else {
+					outs = append(outs, Outcome{St: u, Ret: Tuple{bytesOf(u, text), errOf(u, "os/exec", "ExitError")}})
+				}
+			}
+			if b := br[1]; b != nil { // bounded by WaitDelay
+				if sn == 5 {
+					outs = append(outs, Outcome{St: b, Ret: Tuple{bytesOf(b, text), en.newError(b, "exec: WaitDelay expired before I/O complete")}})
+				} else {
+					setDeadline(b)
+					outs = append(outs, Outcome{St: b, Ret: Tuple{bytesOf(b, text), errOf(b, "os/exec", "ExitError")}})
+				}
+			}
+		}
 		return outs
+	})
+	// Stopwatch: StopwatchStart clears, StopwatchOver reads the ghost flag "a command call since
+	// the start had no bound on its duration" (natively: wall-clock time).
+	e.reg(z+"StopwatchStart", func(c *CallCtx, st *State, args []Value) []Outcome {
+		uc := c.E.namedCell(st, "exec.unbounded", func() Value { return smt.False })
+		st.heap[uc] = smt.False
+		return one(st, smt.IntC(0))
+	})
+	e.reg(z+"StopwatchOver", func(c *CallCtx, st *State, args []Value) []Outcome {
+		uc := c.E.namedCell(st, "exec.unbounded", func() Value { return smt.False })
+		return one(st, st.heap[uc])
 	})
 }
 
